@@ -143,7 +143,7 @@ def real_collect(alns, high_memory):
     objs = [FakeAln(a) for a in alns]
     col = AP.AlignmentCollector.__new__(AP.AlignmentCollector)
     col.chr_id = "chrF"
-    col.params = types.SimpleNamespace(high_memory=high_memory)
+    col.params = types.SimpleNamespace(high_memory=high_memory, no_secondary=False, min_mapq=0)   # read by the stretch loop of forward_alignments
     col.bam_pairs = [(FakeBam(objs), "fake.bam")]
     col.bam_merger = AP.BAMOnlineMerger(col.bam_pairs, "chrF", 0, 10 ** 12, multiple_iterators=not high_memory)
     col.alignment_stat_counter = ST.EnumStats()
@@ -165,7 +165,7 @@ def real_clusters(alns):
     objs = [FakeAln(a) for a in alns]
     col = AP.AlignmentCollector.__new__(AP.AlignmentCollector)
     col.chr_id = "chrF"
-    col.params = types.SimpleNamespace(high_memory=True)
+    col.params = types.SimpleNamespace(high_memory=True, no_secondary=False, min_mapq=0)
     col.bam_pairs = [(FakeBam(objs), "fake.bam")]
     col.bam_merger = AP.BAMOnlineMerger(col.bam_pairs, "chrF", 0, 10 ** 12, multiple_iterators=False)
     col.alignment_stat_counter = ST.EnumStats()
